@@ -36,6 +36,11 @@ Ltac head_scrut t :=
   | negb ?a => head_scrut a
   | cst_eqb ?a _ => head_scrut a
   | Bool.eqb ?a _ => head_scrut a
+  | ?f ?a =>                    (* a projection applied to a match: [rx (match writer x with ... end)] *)
+      lazymatch a with
+      | (match ?x with _ => _ end) => head_scrut x
+      | _ => t
+      end
   | _ => t
   end.
 
